@@ -81,6 +81,37 @@ def expand(nodes):
     return out
 
 
+def _tags_of_objs(objs, out):
+    import htmltools as h
+
+    for o in objs:
+        if isinstance(o, h.Tag):
+            out.append(o)
+            _tags_of_objs(list(o.children), out)
+    return out
+
+
+def _tags_of_recipes(nodes, out):
+    for n in nodes:
+        if n["k"] == "tag":
+            out.append(n)
+            _tags_of_recipes(n["kids"], out)
+    return out
+
+
+def _append_at(nodes, target, extra):
+    """copy of the forest in which the recipe node `target` (by identity) got one more child"""
+    out = []
+    for n in nodes:
+        if n is target:
+            out.append(dict(n, kids=list(n["kids"]) + [extra]))
+        elif n["k"] == "tag":
+            out.append(dict(n, kids=_append_at(n["kids"], target, extra)))
+        else:
+            out.append(n)
+    return out
+
+
 def stats(nodes, depth=0, acc=None):
     if acc is None:
         acc = {"tfy": 0, "nested": False, "empty-adjacent": False, "multi": False}
@@ -179,6 +210,41 @@ def body_expand(case, note):
             w2 = h.HTMLDocument(h.Tag("html", h.Tag("head", *[build(x) for x in e_head]), h.Tag("body", *[build(x) for x in e_body]))).render(lib_prefix=case["lib"])
         check(w1["html"] == w2["html"], f"HTMLDocument.render() of a lone <{wrap}> differs from the document of the expanded tree", w2["html"], w1["html"])
         check([S.snap(d) for d in w1["dependencies"]] == [S.snap(d) for d in w2["dependencies"]], f"HTMLDocument (lone <{wrap}>) dependencies differ from the expanded tree's")
+    # history: a document is rendered, its content then grows by a tagifiable object (not through doc.append), and it
+    # is rendered again with the same arguments
+    EXTRA = {"k": "tfy", "res": {"k": "list", "t": "taglist", "kids": [{"k": "text", "s": "late"}, {"k": "dep", "name": "late-dep", "version": "9", "head": "<late>"}]}}
+    grown = False
+    objs_d = [build(x) for x in roots]
+    docm = h.HTMLDocument(*objs_d)
+    docm.render(lib_prefix=case["lib"])
+    for i, (rec, o) in enumerate(zip(roots, objs_d)):
+        if rec["k"] == "tag" and isinstance(o, h.Tag):
+            o.append(build(EXTRA))
+            roots2 = list(roots)
+            roots2[i] = dict(rec, kids=list(rec["kids"]) + [EXTRA])
+            want2 = h.HTMLDocument(*[build(x) for x in expand(roots2)]).render(lib_prefix=case["lib"])
+            got2 = docm.render(lib_prefix=case["lib"])
+            check(got2["html"] == want2["html"], "a document rendered again after its content grew by a tagifiable object does not show the expansion", want2["html"], got2["html"])
+            check([S.snap(d) for d in got2["dependencies"]] == [S.snap(d) for d in want2["dependencies"]], "... nor report its dependencies")
+            grown = True
+            break
+    # a tree returned by tagify() is an ordinary tree: a tagifiable object added to it later is expanded like any other
+    regrown = False
+    t_tags, r_tags = _tags_of_objs(list(tg), []), _tags_of_recipes(exp, [])
+    if t_tags and len(t_tags) == len(r_tags):
+        j = case.get("pick", 0) % len(t_tags)
+        target = t_tags[j]
+        if case.get("pick", 0) % 2:
+            target.children.append(build(EXTRA))
+        else:
+            target.append(build(EXTRA))
+        exp2 = _append_at(exp, r_tags[j], EXTRA)
+        want3 = h.TagList(*[build(x) for x in expand(exp2)])
+        got3 = tg.render()
+        check(got3["html"] == want3.get_html_string(), "a tagify() result to which a tagifiable object was added later does not render its expansion", want3.get_html_string(), got3["html"])
+        res3 = D.resolve(collect_deps(list(want3)), name=lambda d: d.name, version=lambda d: str(d.version))
+        check([S.snap(d) for d in got3["dependencies"]] == [S.snap(d) for d in res3], "... nor report its dependencies")
+        regrown = True
     late = h.HTMLDocument()
     for x in roots:
         late.append(build(x))
@@ -196,7 +262,8 @@ def body_expand(case, note):
     s = stats(roots)
     variants = {n.get("variant") for n in _all(roots) if n["k"] == "tfy"}
     note(s["tfy"] >= 2 and (s["multi"] or s["nested"]), *["variant:" + v for v in sorted(x for x in variants if x)], "empty-expansion-adjacent" if s["empty-adjacent"] else "", "nested-expansion" if s["nested"] else "", "no-tfy" if s["tfy"] == 0 else "",
-         "earlier-rendering-raised" if failed else "", "prior-plain-instances+flex" if case.get("prior") and "flex" in variants else "")
+         "earlier-rendering-raised" if failed else "", "prior-plain-instances+flex" if case.get("prior") and "flex" in variants else "",
+         "document-grew-between-renderings" if grown else "", "tagify-result-grew-then-rendered" if regrown else "")
 
 
 def has_plain_tfy(nodes):
@@ -261,11 +328,11 @@ CLAUSES = [
     Clause(
         "expand",
         body_expand,
-        strategy=lambda: st.fixed_dictionaries({"roots": forest(False), "lib": st.sampled_from(["lib", None]), "prior": st.booleans()}),
+        strategy=lambda: st.fixed_dictionaries({"roots": forest(False), "lib": st.sampled_from(["lib", None]), "prior": st.booleans(), "pick": st.integers(0, 50)}),
         quick=700,
         thorough=10000,
         shards_quick=4,
-        required=("empty-expansion-adjacent", "nested-expansion", "variant:stored", "variant:strsub", "variant:iter", "variant:flaky", "variant:flex", "earlier-rendering-raised", "prior-plain-instances+flex"),
+        required=("empty-expansion-adjacent", "nested-expansion", "variant:stored", "variant:strsub", "variant:iter", "variant:flaky", "variant:flex", "earlier-rendering-raised", "prior-plain-instances+flex", "document-grew-between-renderings", "tagify-result-grew-then-rendered"),
         rule="see RULE",
     ),
     Clause(
